@@ -266,8 +266,6 @@ def setitem_stream(run, drv):
     reqs, pend = [], []
     for _ in range(n):
         shape = N.gen_shape(run.rng, 3)
-        if not shape:
-            continue                      # `td[...] = v` is not accepted on an empty batch
         a = N.gen_array(run.rng, shape, constant=True if run.rng.random() < 0.5 else None)
         spec = N.represent(a, run.rng, p_shared=0.85)
         history = []
